@@ -1,6 +1,8 @@
 //! vmv: property-based verification harness for rust-vmm/vm-memory (see /verif/DESIGN.md).
 #![allow(clippy::all)]
 #![allow(dead_code)]
+#![allow(unused_imports)]
+#![allow(unused_mut)]
 
 pub mod engine;
 pub mod tape;
@@ -17,6 +19,8 @@ pub mod p06_atomicity;
 pub mod p07_nocrash;
 pub mod p09_bitmap;
 pub mod p10_maps;
+pub mod p13_io_twins;
+pub mod p14_faults;
 pub mod p19_address;
 pub mod p20_endian;
 
@@ -33,6 +37,8 @@ pub fn properties() -> Vec<Property> {
         p07_nocrash::property(),
         p09_bitmap::property(),
         p10_maps::property(),
+        p13_io_twins::property(),
+        p14_faults::property(),
         p05_p16_dirty::property_c16(),
         p19_address::property(),
         p20_endian::property(),
